@@ -166,9 +166,71 @@ def _let_else(node):
     return n
 
 
+def _local_variant_uses(node, enums):
+    """N4  a block that starts with `use Enum::*;` / `use Enum::{A, B};` / `use Enum::A as X;` names the variants of a crate enum
+    without their prefix: inside that block the bare names — in expressions and in patterns — are rewritten to `Enum::Variant`
+    (a local binding of the same name would shadow the import; none is rewritten when the block binds such a name)."""
+    n = 0
+    if isinstance(node, list):
+        for x in node:
+            n += _local_variant_uses(x, enums)
+        return n
+    if not isinstance(node, dict):
+        return 0
+    if node.get("k") == "block" and isinstance(node.get("stmts"), list):
+        table = {}
+        for s_ in node["stmts"]:
+            if isinstance(s_, dict) and s_.get("k") == "item" and isinstance(s_.get("item"), dict) and s_["item"].get("k") == "use":
+                for nm in s_["item"].get("names", []):
+                    path = nm.get("path") or []
+                    if nm.get("glob") and path and path[-1] in enums:
+                        for v in enums[path[-1]]["variants"]:
+                            table.setdefault(v["name"], (path[-1], v["name"]))
+                    elif not nm.get("glob") and len(path) >= 2 and path[-2] in enums and any(v["name"] == path[-1] for v in enums[path[-2]]["variants"]):
+                        table[nm.get("alias") or path[-1]] = (path[-2], path[-1])
+        if table:
+            n += _apply_variant_table(node["stmts"], table)
+    for v in node.values():
+        if isinstance(v, (dict, list)):
+            n += _local_variant_uses(v, enums)
+    return n
+
+
+def _apply_variant_table(node, table):
+    n = 0
+    if isinstance(node, list):
+        for x in node:
+            n += _apply_variant_table(x, table)
+    elif isinstance(node, dict):
+        if node.get("k") == "item":
+            return 0
+        segs = node.get("segs")
+        if isinstance(segs, list) and len(segs) == 1 and segs[0] in table and node.get("qself") is None:
+            node["segs"] = list(table[segs[0]])
+            n += 1
+        elif node.get("k") == "ident" and node.get("name") in table and "segs" not in node and not node.get("sub") and not node.get("by_ref") and not node.get("mut"):
+            # a bare identifier pattern that names an imported unit variant is a path pattern
+            en, vn = table[node["name"]]
+            for k_ in [k_ for k_ in node if k_ not in ("l",)]:
+                del node[k_]
+            node.update({"k": "path", "segs": [en, vn]})
+            n += 1
+        for v in list(node.values()):
+            if isinstance(v, (dict, list)):
+                n += _apply_variant_table(v, table)
+    return n
+
+
 def apply(facts):
     facts.normalised = []
     import re as _re
+
+    for key, fn in facts.fns.items():
+        if fn.body is None:
+            continue
+        k_ = _local_variant_uses(fn.node["body"], facts.enums)
+        if k_:
+            facts.normalised.append("%s: %d names imported by a block-local `use Enum::..` read as `Enum::Variant`" % (key, k_))
 
     for key, fn in facts.fns.items():
         if fn.body is None:
